@@ -1,20 +1,33 @@
 #!/usr/bin/env python3
-"""Print the markdown table of seeded changes and which checks caught them (from seeded/*/meta.json)."""
-import json, glob, os, re
+"""Regenerate the table of seeded changes in DESIGN.md section 9 from seeded/*/meta.json.
+   seedtable.py          print the table
+   seedtable.py --write  replace the table in /verif/DESIGN.md"""
+import json, glob, os, re, sys
 rows = []
 for d in sorted(glob.glob('/verif/seeded/*/')):
     m = json.load(open(d + 'meta.json'))
     name = os.path.basename(d.rstrip('/'))
-    readme = open(d + 'README.agent.md').read() if os.path.exists(d + 'README.agent.md') else ''
-    patch = open(d + 'patch.diff').read()
-    files = sorted(set(re.findall(r'^\+\+\+ b/(\S+)', patch, re.M)))
-    caught = []
+    cells = []
     for pid, r in m['checks_run'].items():
-        tag = 'caught' if r['exit'] == 1 else ('inconclusive' if r['exit'] == 2 else 'silent')
-        sig = (': ' + ', '.join(s.split(' (')[0] for s in r['signatures'][:2])) if r['signatures'] else ''
-        caught.append(f"{pid} {tag}{sig}")
-    rows.append((name, m['property'], ', '.join(os.path.basename(f) for f in files), m.get('summary', ''), '; '.join(caught), m.get('history', '')))
-print("| seeded change | property | file | checks run against it (quick tier) | note |")
-print("|---|---|---|---|---|")
-for r in rows:
-    print(f"| {r[0]} | {r[1]} | {r[2]} | {r[4]} | {r[5]} |")
+        if r['exit'] == 1:
+            sig = r['signatures'][0].split(' (')[0] if r['signatures'] else ''
+            cells.append(f"{pid} **caught** (`{sig}`)" if sig else f"{pid} **caught**")
+        elif r['exit'] == 2:
+            cells.append(f"{pid} inconclusive")
+        else:
+            cells.append(f"{pid} silent")
+    esc = lambda s: s.replace('|', '\\|').replace('\n', ' ')
+    rows.append(f"| {name} | {esc(m.get('change', ''))} | {esc(m.get('needs_to_manifest', ''))} | {'; '.join(cells)} |")
+head = "| seeded change | the change | needs, to manifest | quick checks run against it |\n|---|---|---|---|\n"
+table = head + "\n".join(rows) + "\n"
+if '--write' in sys.argv:
+    p = '/verif/DESIGN.md'
+    s = open(p).read()
+    a = s.index(head)
+    b = a + len(head)
+    while s[b:b + 2] == '| ':
+        b = s.index('\n', b) + 1
+    open(p, 'w').write(s[:a] + table + s[b:])
+    print(len(rows), "rows written")
+else:
+    print(table)
